@@ -1,4 +1,5 @@
 import AsherahVerif.Proofs.EnvResEnv
+import AsherahVerif.Proofs.EnvResBuf
 /-
 C09 — quiescent worlds: which caches have been closed (`cacheDead`, derived from the ghost `closed`
 flags of sessions and factories), how caches are wired to factories and sessions (`Wired`),
@@ -23,8 +24,8 @@ def cacheDead (w : World) (c : Nat) : Bool :=
   w.sessions.any (fun ss => ss.closed && nonShared w ss && ss.ikCache == c)
 
 theorem cacheDead_iff (w : World) (c : Nat) : cacheDead w c = true ↔
-    (∃ f fac, w.facs[f]? = some fac ∧ fac.closed = true ∧ fcaches fac c) ∨
-    (∃ s ss, w.sessions[s]? = some ss ∧ ss.closed = true ∧ nonShared w ss = true ∧ ss.ikCache = c) := by
+    (∃ (f : Nat) (fac : Factory), w.facs[f]? = some fac ∧ fac.closed = true ∧ fcaches fac c) ∨
+    (∃ (s : Nat) (ss : Session), w.sessions[s]? = some ss ∧ ss.closed = true ∧ nonShared w ss = true ∧ ss.ikCache = c) := by
   unfold cacheDead
   simp only [Bool.or_eq_true, List.any_eq_true, Bool.and_eq_true, decide_eq_true_eq, beq_iff_eq]
   constructor
@@ -38,8 +39,8 @@ theorem cacheDead_iff (w : World) (c : Nat) : cacheDead w c = true ↔
     · exact Or.inr ⟨ss, List.mem_of_getElem? hs, ⟨h1, h2⟩, h3⟩
 
 theorem cacheDead_false_iff (w : World) (c : Nat) : cacheDead w c = false ↔
-    (∀ f fac, w.facs[f]? = some fac → fac.closed = true → ¬ fcaches fac c) ∧
-    (∀ s ss, w.sessions[s]? = some ss → ss.closed = true → nonShared w ss = true → ss.ikCache ≠ c) := by
+    (∀ (f : Nat) (fac : Factory), w.facs[f]? = some fac → fac.closed = true → ¬ fcaches fac c) ∧
+    (∀ (s : Nat) (ss : Session), w.sessions[s]? = some ss → ss.closed = true → nonShared w ss = true → ss.ikCache ≠ c) := by
   rw [← Bool.not_eq_true, cacheDead_iff]
   constructor
   · intro h
@@ -66,8 +67,8 @@ structure Wired (w : World) : Prop where
   sesDisj : ∀ (s s' : Nat) (ss ss' : Session), w.sessions[s]? = some ss → w.sessions[s']? = some ss' →
     nonShared w ss = true → nonShared w ss' = true → ss.ikCache = ss'.ikCache → s = s'
   owned : ∀ c, c < w.caches.length →
-    (∃ f fac, w.facs[f]? = some fac ∧ fcaches fac c) ∨
-    (∃ s ss, w.sessions[s]? = some ss ∧ nonShared w ss = true ∧ ss.ikCache = c)
+    (∃ (f : Nat) (fac : Factory), w.facs[f]? = some fac ∧ fcaches fac c) ∨
+    (∃ (s : Nat) (ss : Session), w.sessions[s]? = some ss ∧ nonShared w ss = true ∧ ss.ikCache = c)
 
 /-- the quiescent invariant (between public operations). -/
 def QInv (w : World) : Prop := Wired w ∧ RI (tabOf w) .none [] w
@@ -81,9 +82,9 @@ theorem Wired.ctx_live {w : World} (hw : Wired w) {s : Nat} (ho : sessionOpen w 
     cacheDead w (sessionCtx w s).skCache = false ∧ cacheDead w (sessionCtx w s).ikCache = false := by
   obtain ⟨ss, hss, hsc, fac, hfac, hfc⟩ := ho
   have hctx1 : (sessionCtx w s).skCache = fac.skCache := by
-    simp [sessionCtx, getD_eq_of_getElem? hss, getD_eq_of_getElem? hfac]
+    simp [sessionCtx, hss, hfac]
   have hctx2 : (sessionCtx w s).ikCache = ss.ikCache := by
-    simp [sessionCtx, getD_eq_of_getElem? hss]
+    simp [sessionCtx, hss]
   obtain ⟨fac0, hfac0, hsh, hns⟩ := hw.sesOk s ss hss
   rw [hfac] at hfac0; cases hfac0
   rw [hctx1, hctx2]
@@ -138,5 +139,743 @@ theorem Wired.of_eq {w w' : World} (hw : Wired w) (hf : w'.facs = w.facs) (hs : 
 theorem cacheDead_of_eq {w w' : World} (hf : w'.facs = w.facs) (hs : w'.sessions = w.sessions) (c : Nat) :
     cacheDead w' c = cacheDead w c := by
   unfold cacheDead nonShared; rw [hf, hs]
+
+
+
+/-- an SDK-internal computation that keeps the invariant for the fixed table keeps `QInv`. -/
+theorem QInv.step {α : Type} {w w1 : World} (h : QInv w) (x : M α)
+    (hk : w1.keys = w.keys) (hs : w1.secrets = w.secrets) (hc : w1.caches = w.caches)
+    (hf : w1.facs = w.facs) (hse : w1.sessions = w.sessions)
+    (hx : Spec (RI (tabOf w) .none []) x (fun _ => RI (tabOf w) .none []) (RI (tabOf w) .none []))
+    (he : Extends x) : QInv (x w1).2 := by
+  have h1 : RI (tabOf w) .none [] w1 := RIc.frame h.2 hk hs hc
+  have h2 : RI (tabOf w) .none [] (x w1).2 := hx.toPreserves w1 h1
+  have hext := he w1
+  have hf' : (x w1).2.facs = w.facs := hext.facs.trans hf
+  have hs' : (x w1).2.sessions = w.sessions := hext.sessions.trans hse
+  refine ⟨h.1.of_eq hf' hs' ?_, h2.retab fun c _ => (cacheDead_of_eq hf' hs' c).symm⟩
+  rw [h2.clen, h.2.clen]
+
+theorem QInv.encrypt {w : World} (h : QInv w) (s pay : Nat) (fl : List Fault) (ho : sessionOpen w s) :
+    QInv (encrypt s pay fl true w).2 := by
+  have hl := h.1.ctx_live ho
+  exact h.step (w1 := { w with log := [], faults := fl }) (encryptPayload (sessionCtx w s) pay true) rfl rfl rfl rfl rfl
+    (encryptPayload_spec (tabOf w) [] _ pay hl.1 hl.2) (encryptPayload_ext _ _ _)
+
+theorem QInv.decrypt {w : World} (h : QInv w) (s : Nat) (d : Drr) (fl : List Fault) (ho : sessionOpen w s) :
+    QInv (decrypt s d fl true w).2 := by
+  have hl := h.1.ctx_live ho
+  exact h.step (w1 := { w with log := [], faults := fl }) (decryptDataRowRecord (sessionCtx w s) d true) rfl rfl rfl rfl rfl
+    (decryptDataRowRecord_spec (tabOf w) [] _ d hl.1 hl.2) (decryptDataRowRecord_ext _ _ _)
+
+/-- updates of the world that touch neither heap nor wiring. -/
+theorem QInv.of_same {w w' : World} (h : QInv w) (hk : w'.keys = w.keys) (hs : w'.secrets = w.secrets)
+    (hc : w'.caches = w.caches) (hf : w'.facs = w.facs) (hse : w'.sessions = w.sessions) : QInv w' := by
+  have := h.step (w1 := w') (pure () : M Unit) hk hs hc hf hse (Spec.pure _ fun _ h => h) (Extends.pure _)
+  exact this
+
+theorem ses_setAt_lookup (l : List Session) (s s' : Nat) (ss' : Session)
+    (h : (setAt l s fun x => { x with closed := true })[s']? = some ss') :
+    ∃ ss0, l[s']? = some ss0 ∧ ss'.fac = ss0.fac ∧ ss'.ikCache = ss0.ikCache ∧ ss'.part = ss0.part ∧
+      (ss'.closed = true ↔ (s' = s ∨ ss0.closed = true)) := by
+  rw [setAt_getElem?] at h
+  by_cases e : s' = s
+  · subst e
+    simp only [if_true] at h
+    cases hl : l[s']? with
+    | none => rw [hl] at h; cases h
+    | some ss0 => rw [hl] at h; simp at h; subst h; exact ⟨ss0, rfl, rfl, rfl, rfl, by simp⟩
+  · simp only [e, if_false] at h
+    exact ⟨ss', h, rfl, rfl, rfl, by simp [e]⟩
+
+theorem ses_setAt_lookup' (l : List Session) (s s' : Nat) (ss0 : Session) (h : l[s']? = some ss0) :
+    ∃ ss', (setAt l s fun x => { x with closed := true })[s']? = some ss' ∧ ss'.fac = ss0.fac ∧ ss'.ikCache = ss0.ikCache ∧
+      (ss'.closed = true ↔ (s' = s ∨ ss0.closed = true)) := by
+  rw [setAt_getElem?]
+  by_cases e : s' = s
+  · subst e; simp only [if_true, h, Option.map_some]; exact ⟨_, rfl, rfl, rfl, by simp⟩
+  · simp only [e, if_false, h]; exact ⟨_, rfl, rfl, rfl, by simp [e]⟩
+
+theorem Wired.closeSes {w w' : World} (hw : Wired w) (s : Nat) (hf : w'.facs = w.facs)
+    (hs : w'.sessions = setAt w.sessions s fun x => { x with closed := true })
+    (hc : w'.caches.length = w.caches.length) : Wired w' := by
+  have hns : ∀ ss ss0 : Session, ss.fac = ss0.fac → nonShared w' ss = nonShared w ss0 := by
+    intro ss ss0 e; unfold nonShared; rw [hf, e]
+  refine ⟨?_, ?_, ?_, ?_, ?_⟩
+  · rw [hf, hc]; exact hw.facOk
+  · rw [hf]; exact hw.facDisj
+  · intro s' ss' h'
+    rw [hs] at h'
+    obtain ⟨ss0, h0, e1, e2, _⟩ := ses_setAt_lookup _ _ _ _ h'
+    rw [hf, hc, e1, e2]
+    exact hw.sesOk s' ss0 h0
+  · intro s1 s2 ss1 ss2 h1 h2 n1 n2 e
+    rw [hs] at h1 h2
+    obtain ⟨a0, ha, a1, a2, _⟩ := ses_setAt_lookup _ _ _ _ h1
+    obtain ⟨b0, hb, b1, b2, _⟩ := ses_setAt_lookup _ _ _ _ h2
+    rw [hns _ _ a1] at n1; rw [hns _ _ b1] at n2
+    exact hw.sesDisj s1 s2 a0 b0 ha hb n1 n2 (by rw [← a2, ← b2]; exact e)
+  · intro c hc'
+    rw [hc] at hc'
+    rcases hw.owned c hc' with ⟨f, fac, h1, h2⟩ | ⟨s0, ss0, h1, h2, h3⟩
+    · exact Or.inl ⟨f, fac, by rw [hf]; exact h1, h2⟩
+    · obtain ⟨ss', h', e1, e2, _⟩ := ses_setAt_lookup' w.sessions s s0 ss0 h1
+      exact Or.inr ⟨s0, ss', by rw [hs]; exact h', by rw [hns _ _ e1]; exact h2, by rw [e2]; exact h3⟩
+
+/-- which caches are dead after the ghost flag of session `s` has been set. -/
+theorem cacheDead_closeSes {w w' : World} (s : Nat) (ss : Session) (hss : w.sessions[s]? = some ss)
+    (hf : w'.facs = w.facs) (hs : w'.sessions = setAt w.sessions s fun x => { x with closed := true }) (c : Nat) :
+    cacheDead w' c = ((nonShared w ss && ss.ikCache == c) || cacheDead w c) := by
+  have hns : ∀ a b : Session, a.fac = b.fac → nonShared w' a = nonShared w b := by
+    intro a b e; unfold nonShared; rw [hf, e]
+  rw [Bool.eq_iff_iff]
+  simp only [Bool.or_eq_true, Bool.and_eq_true, beq_iff_eq, cacheDead_iff]
+  constructor
+  · rintro (⟨f, fac, h1, h2, h3⟩ | ⟨s', ss', h1, h2, h3, h4⟩)
+    · exact Or.inr (Or.inl ⟨f, fac, by rw [← hf]; exact h1, h2, h3⟩)
+    · rw [hs] at h1
+      obtain ⟨ss0, h0, e1, e2, _, e4⟩ := ses_setAt_lookup _ _ _ _ h1
+      rw [hns _ _ e1] at h3
+      rcases e4.1 h2 with rfl | hcl
+      · rw [hss] at h0; cases h0
+        exact Or.inl ⟨h3, by rw [← e2]; exact h4⟩
+      · exact Or.inr (Or.inr ⟨s', ss0, h0, hcl, h3, by rw [← e2]; exact h4⟩)
+  · rintro (⟨h1, h2⟩ | ⟨f, fac, h1, h2, h3⟩ | ⟨s', ss0, h1, h2, h3, h4⟩)
+    · obtain ⟨ss', h', e1, e2, e4⟩ := ses_setAt_lookup' w.sessions s s ss hss
+      exact Or.inr ⟨s, ss', by rw [hs]; exact h', e4.2 (Or.inl rfl), by rw [hns _ _ e1]; exact h1, by rw [e2]; exact h2⟩
+    · exact Or.inl ⟨f, fac, by rw [hf]; exact h1, h2, h3⟩
+    · obtain ⟨ss', h', e1, e2, e4⟩ := ses_setAt_lookup' w.sessions s s' ss0 h1
+      exact Or.inr ⟨s', ss', by rw [hs]; exact h', e4.2 (Or.inr h2), by rw [hns _ _ e1]; exact h3, by rw [e2]; exact h4⟩
+
+/-- a session that has not been closed and owns its cache: the cache is open. -/
+theorem Wired.own_live {w : World} (hw : Wired w) {s : Nat} {ss : Session} (hss : w.sessions[s]? = some ss)
+    (hcl : ss.closed = false) (hns : nonShared w ss = true) : cacheDead w ss.ikCache = false := by
+  obtain ⟨fac, hfac, hsh, hn⟩ := hw.sesOk s ss hss
+  rw [nonShared_eq hfac] at hns
+  have hnone : fac.sharedIk = none := by simpa using hns
+  rw [cacheDead_false_iff]
+  constructor
+  · intro f' fac' hf' _ hfc'
+    exact (hn hnone).2 f' fac' hf' hfc'
+  · intro s' ss' hs' hcl' hns' heq
+    have hnss : nonShared w ss = true := by rw [nonShared_eq hfac, hnone]; rfl
+    have := hw.sesDisj s' s ss' ss hs' hss hns' hnss heq
+    subst this; rw [hss] at hs'; cases hs'; rw [hcl] at hcl'; cases hcl'
+
+theorem QInv.closeSession {w : World} (h : QInv w) (s : Nat) (ss : Session) (hss : w.sessions[s]? = some ss)
+    (hcl : ss.closed = false) : QInv ((do beginOp []; closeSession s : M Unit) w).2 := by
+  obtain ⟨fac, hfac, hsh, hn⟩ := h.1.sesOk s ss hss
+  have hpol := (h.1.facOk _ _ hfac).2.2.1
+  simp only [bind_run, beginOp, modify_run, Env.closeSession, get_run]
+  have hgs : w.sessions.getD s default = ss := getD_eq_of_getElem? hss
+  have hgf : w.facs.getD ss.fac default = fac := getD_eq_of_getElem? hfac
+  simp only [hgs, hgf]
+  cases hsi : fac.sharedIk with
+  | some c0 =>
+    have hp : fac.pol.sharedIK = true := by rw [hpol, hsi]; rfl
+    simp only [hp, if_true, pure_run]
+    have hnsf : nonShared w ss = false := by rw [nonShared_eq hfac, hsi]; rfl
+    let w1 : World := { w with log := [], faults := [], sessions := setAt w.sessions s fun x => { x with closed := true } }
+    show QInv w1
+    refine ⟨h.1.closeSes s rfl rfl rfl, ?_⟩
+    refine RI.retab (RIc.frame h.2 rfl rfl rfl) ?_
+    intro c _
+    rw [cacheDead_closeSes (w := w) (w' := w1) s ss hss rfl rfl c, hnsf]
+    simp [tabOf]
+  | none =>
+    have hp : fac.pol.sharedIK = false := by rw [hpol, hsi]; rfl
+    simp only [hp, Bool.false_eq_true, if_false]
+    have hnsf : nonShared w ss = true := by rw [nonShared_eq hfac, hsi]; rfl
+    have hlive := h.1.own_live hss hcl hnsf
+    let w1 : World := { w with log := [], faults := [], sessions := setAt w.sessions s fun x => { x with closed := true } }
+    have h1 : RI (tabOf w) .none [] w1 := RIc.frame h.2 rfl rfl rfl
+    have hsp := cacheClose_spec (tabOf w) [] ss.ikCache hlive w1 h1
+    have hext := cacheClose_ext ss.ikCache w1
+    show QInv (cacheClose ss.ikCache w1).2
+    cases hr : cacheClose ss.ikCache w1 with
+    | mk r w2 =>
+      rw [hr] at hsp hext
+      cases r with
+      | error e => exact hsp.elim
+      | ok u =>
+        simp only at hsp hext ⊢
+        have hf2 : w2.facs = w.facs := hext.facs
+        have hs2 : w2.sessions = setAt w.sessions s fun x => { x with closed := true } := hext.sessions
+        refine ⟨h.1.closeSes s hf2 hs2 ?_, ?_⟩
+        · rw [hsp.clen, h.2.clen]; rfl
+        · refine RI.retab hsp ?_
+          intro c _
+          rw [cacheDead_closeSes s ss hss hf2 hs2 c, hnsf]
+          simp only [tabOf, CTab.kill, Bool.true_and]
+          rw [Bool.beq_comm]
+
+theorem fac_setAt_lookup (l : List Factory) (f f' : Nat) (fac' : Factory)
+    (h : (setAt l f fun x => { x with closed := true })[f']? = some fac') :
+    ∃ fac0, l[f']? = some fac0 ∧ fac'.pol = fac0.pol ∧ fac'.skCache = fac0.skCache ∧ fac'.sharedIk = fac0.sharedIk ∧
+      (fac'.closed = true ↔ (f' = f ∨ fac0.closed = true)) := by
+  rw [setAt_getElem?] at h
+  by_cases e : f' = f
+  · subst e
+    simp only [if_true] at h
+    cases hl : l[f']? with
+    | none => rw [hl] at h; cases h
+    | some x => rw [hl] at h; simp at h; subst h; exact ⟨x, rfl, rfl, rfl, rfl, by simp⟩
+  · simp only [e, if_false] at h
+    exact ⟨fac', h, rfl, rfl, rfl, by simp [e]⟩
+
+theorem fac_setAt_lookup' (l : List Factory) (f f' : Nat) (fac0 : Factory) (h : l[f']? = some fac0) :
+    ∃ fac', (setAt l f fun x => { x with closed := true })[f']? = some fac' ∧ fac'.pol = fac0.pol ∧
+      fac'.skCache = fac0.skCache ∧ fac'.sharedIk = fac0.sharedIk ∧ (fac'.closed = true ↔ (f' = f ∨ fac0.closed = true)) := by
+  rw [setAt_getElem?]
+  by_cases e : f' = f
+  · subst e; simp only [if_true, h, Option.map_some]; exact ⟨_, rfl, rfl, rfl, rfl, by simp⟩
+  · simp only [e, if_false, h]; exact ⟨_, rfl, rfl, rfl, rfl, by simp [e]⟩
+
+theorem nonShared_closeFac {w w' : World} (f : Nat)
+    (hf : w'.facs = setAt w.facs f fun x => { x with closed := true }) (ss : Session) :
+    nonShared w' ss = nonShared w ss := by
+  unfold nonShared
+  rw [hf]
+  simp only [List.getD_eq_getElem?_getD]
+  cases h : w.facs[ss.fac]? with
+  | none =>
+    have : (setAt w.facs f fun x => { x with closed := true })[ss.fac]? = none := by
+      rw [setAt_getElem?]; split <;> simp [h]
+    rw [this]
+  | some fac0 =>
+    obtain ⟨fac', h', _, _, e, _⟩ := fac_setAt_lookup' w.facs f ss.fac fac0 h
+    rw [h']; simp [e]
+
+theorem fcaches_congr {a b : Factory} (h1 : a.skCache = b.skCache) (h2 : a.sharedIk = b.sharedIk) (c : Nat) :
+    fcaches a c ↔ fcaches b c := by unfold fcaches; rw [h1, h2]
+
+theorem Wired.closeFac {w w' : World} (hw : Wired w) (f : Nat)
+    (hf : w'.facs = setAt w.facs f fun x => { x with closed := true }) (hs : w'.sessions = w.sessions)
+    (hc : w'.caches.length = w.caches.length) : Wired w' := by
+  have hns := nonShared_closeFac f hf
+  refine ⟨?_, ?_, ?_, ?_, ?_⟩
+  · intro f' fac' h'
+    rw [hf] at h'
+    obtain ⟨fac0, h0, e1, e2, e3, _⟩ := fac_setAt_lookup _ _ _ _ h'
+    rw [hc, e1, e2, e3]
+    exact hw.facOk f' fac0 h0
+  · intro f1 f2 a b c h1 h2 c1 c2
+    rw [hf] at h1 h2
+    obtain ⟨a0, ha, _, a2, a3, _⟩ := fac_setAt_lookup _ _ _ _ h1
+    obtain ⟨b0, hb, _, b2, b3, _⟩ := fac_setAt_lookup _ _ _ _ h2
+    exact hw.facDisj f1 f2 a0 b0 c ha hb ((fcaches_congr a2 a3 c).1 c1) ((fcaches_congr b2 b3 c).1 c2)
+  · intro s ss h'
+    rw [hs] at h'
+    obtain ⟨fac0, h0, a, b⟩ := hw.sesOk s ss h'
+    obtain ⟨fac', hf', _, e2, e3, _⟩ := fac_setAt_lookup' w.facs f ss.fac fac0 h0
+    refine ⟨fac', by rw [hf]; exact hf', by rw [e3]; exact a, ?_⟩
+    rw [e3, hc]
+    intro hnone
+    refine ⟨(b hnone).1, ?_⟩
+    intro f2 fac2 h2 hc2
+    rw [hf] at h2
+    obtain ⟨x0, hx, _, x2, x3, _⟩ := fac_setAt_lookup _ _ _ _ h2
+    exact (b hnone).2 f2 x0 hx ((fcaches_congr x2 x3 _).1 hc2)
+  · rw [hs]; simp only [hns]; exact hw.sesDisj
+  · intro c hc'
+    rw [hc] at hc'
+    rcases hw.owned c hc' with ⟨f0, fac0, h1, h2⟩ | ⟨s0, ss0, h1, h2, h3⟩
+    · obtain ⟨fac', hf', _, e2, e3, _⟩ := fac_setAt_lookup' w.facs f f0 fac0 h1
+      exact Or.inl ⟨f0, fac', by rw [hf]; exact hf', (fcaches_congr e2 e3 c).2 h2⟩
+    · exact Or.inr ⟨s0, ss0, by rw [hs]; exact h1, by rw [hns]; exact h2, h3⟩
+
+theorem cacheDead_closeFac {w w' : World} (f : Nat) (fac : Factory) (hfac : w.facs[f]? = some fac)
+    (hf : w'.facs = setAt w.facs f fun x => { x with closed := true }) (hs : w'.sessions = w.sessions) (c : Nat) :
+    cacheDead w' c = (decide (fcaches fac c) || cacheDead w c) := by
+  have hns := nonShared_closeFac f hf
+  rw [Bool.eq_iff_iff]
+  simp only [Bool.or_eq_true, decide_eq_true_eq, cacheDead_iff]
+  constructor
+  · rintro (⟨f', fac', h1, h2, h3⟩ | ⟨s', ss', h1, h2, h3, h4⟩)
+    · rw [hf] at h1
+      obtain ⟨x0, hx, _, x2, x3, x4⟩ := fac_setAt_lookup _ _ _ _ h1
+      rcases x4.1 h2 with rfl | hcl
+      · rw [hfac] at hx; cases hx
+        exact Or.inl ((fcaches_congr x2 x3 c).1 h3)
+      · exact Or.inr (Or.inl ⟨f', x0, hx, hcl, (fcaches_congr x2 x3 c).1 h3⟩)
+    · exact Or.inr (Or.inr ⟨s', ss', by rw [← hs]; exact h1, h2, by rw [← hns]; exact h3, h4⟩)
+  · rintro (h1 | ⟨f', x0, h1, h2, h3⟩ | ⟨s', ss0, h1, h2, h3, h4⟩)
+    · obtain ⟨fac', h', _, e2, e3, e4⟩ := fac_setAt_lookup' w.facs f f fac hfac
+      exact Or.inl ⟨f, fac', by rw [hf]; exact h', e4.2 (Or.inl rfl), (fcaches_congr e2 e3 c).2 h1⟩
+    · obtain ⟨fac', h', _, e2, e3, e4⟩ := fac_setAt_lookup' w.facs f f' x0 h1
+      exact Or.inl ⟨f', fac', by rw [hf]; exact h', e4.2 (Or.inr h2), (fcaches_congr e2 e3 c).2 h3⟩
+    · exact Or.inr ⟨s', ss0, by rw [hs]; exact h1, h2, by rw [hns]; exact h3, h4⟩
+
+/-- the caches of a factory that has not been closed are open. -/
+theorem Wired.fac_live {w : World} (hw : Wired w) {f : Nat} {fac : Factory} (hfac : w.facs[f]? = some fac)
+    (hcl : fac.closed = false) {c : Nat} (hc : fcaches fac c) : cacheDead w c = false := by
+  rw [cacheDead_false_iff]
+  constructor
+  · intro f' fac' hf' hcl' hfc'
+    have := hw.facDisj f' f fac' fac c hf' hfac hfc' hc
+    subst this; rw [hfac] at hf'; cases hf'; rw [hcl] at hcl'; cases hcl'
+  · intro s' ss' hs' _ hns' heq
+    obtain ⟨fac', hfac', _, hn'⟩ := hw.sesOk s' ss' hs'
+    rw [nonShared_eq hfac'] at hns'
+    have hnone : fac'.sharedIk = none := by simpa using hns'
+    exact (hn' hnone).2 f fac hfac (heq ▸ hc)
+
+theorem QInv.closeFactory {w : World} (h : QInv w) (f : Nat) (fac : Factory) (hfac : w.facs[f]? = some fac)
+    (hcl : fac.closed = false) : QInv ((do beginOp []; closeFactory f : M Unit) w).2 := by
+  simp only [bind_run, beginOp, modify_run, Env.closeFactory, get_run]
+  have hgf : w.facs.getD f default = fac := getD_eq_of_getElem? hfac
+  simp only [hgf]
+  let w1 : World := { w with log := [], faults := [], facs := setAt w.facs f fun x => { x with closed := true } }
+  have h1 : RI (tabOf w) .none [] w1 := RIc.frame h.2 rfl rfl rfl
+  have hsk := h.1.fac_live hfac hcl (c := fac.skCache) (Or.inl rfl)
+  -- closing the system-key cache from a world `wa` whose table is `Ta`
+  have final : ∀ (Ta : CTab) (wa : World), RI Ta .none [] wa → Ta.dead fac.skCache = false → wa.facs = w1.facs →
+      wa.sessions = w.sessions → Ta.n = w.caches.length →
+      (∀ c, (Ta.kill fac.skCache).dead c = (decide (fcaches fac c) || cacheDead w c)) →
+      QInv (cacheClose fac.skCache wa).2 := by
+    intro Ta wa hia hda hfa hsa hna hdead
+    have hsp := cacheClose_spec Ta [] fac.skCache hda wa hia
+    have hext := cacheClose_ext fac.skCache wa
+    cases hr : cacheClose fac.skCache wa with
+    | mk r w2 =>
+      rw [hr] at hsp hext
+      cases r with
+      | error e => exact hsp.elim
+      | ok u =>
+        simp only at hsp hext ⊢
+        have hf2 : w2.facs = setAt w.facs f fun x => { x with closed := true } := hext.facs.trans hfa
+        have hs2 : w2.sessions = w.sessions := hext.sessions.trans hsa
+        refine ⟨h.1.closeFac f hf2 hs2 ?_, ?_⟩
+        · rw [hsp.clen]; exact hna
+        · refine RI.retab hsp ?_
+          intro c _
+          rw [cacheDead_closeFac f fac hfac hf2 hs2 c]
+          exact hdead c
+  cases hsi : fac.sharedIk with
+  | none =>
+    simp only [pure_run]
+    refine final (tabOf w) w1 h1 hsk rfl rfl rfl ?_
+    intro c
+    simp only [tabOf, CTab.kill, fcaches, hsi]
+    rw [Bool.eq_iff_iff]
+    simp only [Bool.or_eq_true, beq_iff_eq, decide_eq_true_eq, reduceCtorEq, or_false]
+    constructor <;> rintro (e | e) <;> first | exact Or.inl e.symm | exact Or.inr e
+  | some c0 =>
+    simp only [bind_run]
+    have hc0 := h.1.fac_live hfac hcl (c := c0) (Or.inr hsi)
+    have hne : c0 ≠ fac.skCache := ((h.1.facOk f fac hfac).2.1 c0 hsi).2
+    have hsp := cacheClose_spec (tabOf w) [] c0 hc0 w1 h1
+    have hext := cacheClose_ext c0 w1
+    cases hr : cacheClose c0 w1 with
+    | mk r w2 =>
+      rw [hr] at hsp hext
+      cases r with
+      | error e => exact hsp.elim
+      | ok u =>
+        simp only at hsp hext ⊢
+        refine final ((tabOf w).kill c0) w2 hsp ?_ hext.facs hext.sessions rfl ?_
+        · simp only [CTab.kill, tabOf, hsk, Bool.or_false, beq_eq_false_iff_ne, ne_eq]
+          exact fun e => hne e.symm
+        · intro c
+          simp only [tabOf, CTab.kill, fcaches, hsi, Option.some.injEq]
+          rw [Bool.eq_iff_iff]
+          simp only [Bool.or_eq_true, beq_iff_eq, decide_eq_true_eq]
+          constructor
+          · rintro (e | e | e)
+            · exact Or.inl (Or.inl e.symm)
+            · exact Or.inl (Or.inr e.symm)
+            · exact Or.inr e
+          · rintro ((e | e) | e)
+            · exact Or.inl e.symm
+            · exact Or.inr (Or.inl e.symm)
+            · exact Or.inr (Or.inr e)
+
+
+/-- a new, empty, non-bounded cache at the end of the cache list. -/
+theorem RIc.appendCache {T T' : CTab} {raw : Raw} {h : Nat → Int} {w : World} (hi : RIc T raw h w) (kc : KeyCache)
+    (hents : kc.ents = []) (hlat : kc.latest = []) (hnb : kc.mode ≠ .bounded)
+    (hd : ∀ c, c < w.caches.length → T'.dead c = T.dead c)
+    (hm : ∀ c, T'.mode c = ((w.caches ++ [kc]).getD c default).mode)
+    (hn : T'.n = T.n + 1) : RIc T' raw h { w with caches := w.caches ++ [kc] } := by
+  have hcnt : ∀ o, cntOf T' h { w with caches := w.caches ++ [kc] } o = cntOf T h w o := by
+    intro o
+    unfold cntOf
+    show ((entCount T'.dead (w.caches ++ [kc]) o : Nat) : Int) + h o = _
+    rw [entCount_append_empty _ _ _ _ hents, entCount_congr w.caches o hd]
+  have hmode : ∀ c, ((w.caches ++ [kc]).getD c default).mode = if c < w.caches.length then T.mode c else if c = w.caches.length then kc.mode else CacheMode.never := by
+    intro c
+    simp only [List.getD_eq_getElem?_getD, getElem?_append_single]
+    split
+    · rename_i hlt
+      rw [← hi.mode c, List.getD_eq_getElem?_getD]
+    · split
+      · rfl
+      · rfl
+  refine ⟨hi.len, hi.rawSec, hi.rawObj, hi.sec, hi.led, ?_, hi.hval, ?_, ?_, ?_, ?_⟩
+  · intro o k hk; rw [hcnt]; exact hi.acc o k hk
+  · intro c kc' hc' hdc
+    simp only [getElem?_append_single] at hc'
+    split at hc'
+    · rename_i hlt
+      exact hi.ents c kc' hc' (by rw [← hd c hlt]; exact hdc)
+    · split at hc'
+      · cases hc'
+        refine ⟨?_, ?_, ?_, fun _ => hents⟩
+        · intro m e hme; rw [hents] at hme; cases hme
+        · rw [hents]; exact List.nodup_nil
+        · intro kid l hl; rw [hlat] at hl; cases hl
+      · cases hc'
+  · intro c; exact (hm c).symm
+  · intro c
+    rw [hm c, hmode c]
+    split
+    · exact hi.nb c
+    · split
+      · exact hnb
+      · decide
+  · show (w.caches ++ [kc]).length = T'.n
+    rw [hn, ← hi.clen]; simp
+
+theorem cacheOf_fresh (on : Bool) (a b : Nat) :
+    (cacheOf on none a b).ents = [] ∧ (cacheOf on none a b).latest = [] ∧ (cacheOf on none a b).mode ≠ .bounded := by
+  unfold cacheOf newCache
+  cases on <;> simp
+
+
+theorem nonShared_append {w w' : World} {fac : Factory} (hf : w'.facs = w.facs ++ [fac]) (ss : Session)
+    (hv : ss.fac < w.facs.length) : nonShared w' ss = nonShared w ss := by
+  unfold nonShared
+  rw [hf]
+  simp only [List.getD_eq_getElem?_getD, List.getElem?_append_left hv]
+
+theorem Wired.ses_fac_lt {w : World} (hw : Wired w) {s : Nat} {ss : Session} (h : w.sessions[s]? = some ss) :
+    ss.fac < w.facs.length := by
+  obtain ⟨fac, hfac, _⟩ := hw.sesOk s ss h
+  exact getElem?_lt hfac
+
+theorem fac_lookup_append {l : List Factory} {fac fac' : Factory} {f : Nat} (h : (l ++ [fac])[f]? = some fac') :
+    (f < l.length ∧ l[f]? = some fac') ∨ (f = l.length ∧ fac' = fac) := by
+  rw [getElem?_append_single] at h
+  split at h
+  · exact Or.inl ⟨by assumption, h⟩
+  · split at h
+    · cases h; exact Or.inr ⟨by assumption, rfl⟩
+    · cases h
+
+theorem Wired.fcaches_lt {w : World} (hw : Wired w) {f : Nat} {fac : Factory} (h : w.facs[f]? = some fac) {c : Nat}
+    (hc : fcaches fac c) : c < w.caches.length := by
+  have := hw.facOk f fac h
+  rcases hc with rfl | hc
+  · exact this.1
+  · exact (this.2.1 c hc).1
+
+theorem Wired.addFactory {w w' : World} {fac : Factory} (hw : Wired w) (hs : w'.sessions = w.sessions)
+    (hf : w'.facs = w.facs ++ [fac]) (hlen : w.caches.length ≤ w'.caches.length)
+    (hsk : w.caches.length ≤ fac.skCache ∧ fac.skCache < w'.caches.length)
+    (hsh : ∀ c, fac.sharedIk = some c → w.caches.length ≤ c ∧ c < w'.caches.length ∧ c ≠ fac.skCache)
+    (hpol : fac.pol.sharedIK = fac.sharedIk.isSome ∧ fac.pol.skKind = none ∧ fac.pol.ikKind = none)
+    (hown : ∀ c, w.caches.length ≤ c → c < w'.caches.length → fcaches fac c) : Wired w' := by
+  have hnew : ∀ c, fcaches fac c → w.caches.length ≤ c := by
+    rintro c (rfl | hc)
+    · exact hsk.1
+    · exact (hsh c hc).1
+  have hns : ∀ s ss, w.sessions[s]? = some ss → nonShared w' ss = nonShared w ss :=
+    fun s ss h => nonShared_append hf ss (hw.ses_fac_lt h)
+  refine ⟨?_, ?_, ?_, ?_, ?_⟩
+  · intro f' fac' h'
+    rw [hf] at h'
+    rcases fac_lookup_append h' with ⟨_, h0⟩ | ⟨_, rfl⟩
+    · have := hw.facOk f' fac' h0
+      refine ⟨by omega, fun c hc => ⟨by have := (this.2.1 c hc).1; omega, (this.2.1 c hc).2⟩, this.2.2⟩
+    · exact ⟨hsk.2, fun c hc => ⟨(hsh c hc).2.1, (hsh c hc).2.2⟩, hpol⟩
+  · intro f1 f2 a b c h1 h2 c1 c2
+    rw [hf] at h1 h2
+    rcases fac_lookup_append h1 with ⟨_, ha⟩ | ⟨e1, rfl⟩ <;> rcases fac_lookup_append h2 with ⟨_, hb⟩ | ⟨e2, rfl⟩
+    · exact hw.facDisj f1 f2 a b c ha hb c1 c2
+    · have := hw.fcaches_lt ha c1; have := hnew c c2; omega
+    · have := hw.fcaches_lt hb c2; have := hnew c c1; omega
+    · omega
+  · intro s ss h'
+    rw [hs] at h'
+    obtain ⟨fac0, h0, a, b⟩ := hw.sesOk s ss h'
+    refine ⟨fac0, by rw [hf]; exact append_getElem?_of_some _ h0, a, ?_⟩
+    intro hnone
+    refine ⟨by have := (b hnone).1; omega, ?_⟩
+    intro f2 fac2 h2 hc2
+    rw [hf] at h2
+    rcases fac_lookup_append h2 with ⟨_, hb⟩ | ⟨_, rfl⟩
+    · exact (b hnone).2 f2 fac2 hb hc2
+    · have := hnew _ hc2; have := (b hnone).1; omega
+  · intro s1 s2 a b h1 h2 n1 n2 e
+    rw [hs] at h1 h2
+    rw [hns _ _ h1] at n1; rw [hns _ _ h2] at n2
+    exact hw.sesDisj s1 s2 a b h1 h2 n1 n2 e
+  · intro c hc
+    by_cases hlt : c < w.caches.length
+    · rcases hw.owned c hlt with ⟨f0, fac0, h1, h2⟩ | ⟨s0, ss0, h1, h2, h3⟩
+      · exact Or.inl ⟨f0, fac0, by rw [hf]; exact append_getElem?_of_some _ h1, h2⟩
+      · exact Or.inr ⟨s0, ss0, by rw [hs]; exact h1, by rw [hns _ _ h1]; exact h2, h3⟩
+    · exact Or.inl ⟨w.facs.length, fac, by rw [hf]; simp, hown c (by omega) hc⟩
+
+theorem cacheDead_addFactory {w w' : World} {fac : Factory} (hw : Wired w) (hs : w'.sessions = w.sessions)
+    (hf : w'.facs = w.facs ++ [fac]) (hcl : fac.closed = false) (c : Nat) : cacheDead w' c = cacheDead w c := by
+  have hns : ∀ s ss, w.sessions[s]? = some ss → nonShared w' ss = nonShared w ss :=
+    fun s ss h => nonShared_append hf ss (hw.ses_fac_lt h)
+  rw [Bool.eq_iff_iff]
+  simp only [cacheDead_iff]
+  constructor
+  · rintro (⟨f', fac', h1, h2, h3⟩ | ⟨s', ss', h1, h2, h3, h4⟩)
+    · rw [hf] at h1
+      rcases fac_lookup_append h1 with ⟨_, hb⟩ | ⟨_, rfl⟩
+      · exact Or.inl ⟨f', fac', hb, h2, h3⟩
+      · rw [hcl] at h2; cases h2
+    · rw [hs] at h1
+      exact Or.inr ⟨s', ss', h1, h2, by rw [← hns _ _ h1]; exact h3, h4⟩
+  · rintro (⟨f', fac', h1, h2, h3⟩ | ⟨s', ss', h1, h2, h3, h4⟩)
+    · exact Or.inl ⟨f', fac', by rw [hf]; exact append_getElem?_of_some _ h1, h2, h3⟩
+    · exact Or.inr ⟨s', ss', by rw [hs]; exact h1, h2, by rw [hns _ _ h1]; exact h3, h4⟩
+
+theorem QInv.newFactory {w : World} (h : QInv w) (p : Policy) (a b c d : Nat)
+    (hnb : p.skKind = none ∧ p.ikKind = none) : QInv (newFactory p a b c d w).2 := by
+  simp only [Env.newFactory, bind_run, addCache, hnb.1, hnb.2]
+  have hf1 := cacheOf_fresh p.cacheSK a b
+  have hf2 := cacheOf_fresh true c d
+  cases hsh : p.sharedIK with
+  | false =>
+    simp only [Bool.false_eq_true, if_false, pure_run]
+    let fac : Factory := { pol := p, skCache := w.caches.length, sharedIk := none }
+    let w' : World := { w with caches := w.caches ++ [cacheOf p.cacheSK none a b], facs := w.facs ++ [fac] }
+    show QInv w'
+    have hwd : Wired w' := by
+      refine h.1.addFactory (w' := w') (fac := fac) rfl rfl (by simp [w']) ⟨Nat.le_refl _, by simp [w', fac]⟩
+        (fun c hc => by cases hc) ⟨by simp [fac, hsh], hnb.1, hnb.2⟩ ?_
+      intro c h1 h2
+      left
+      simp [w'] at h2
+      show w.caches.length = c
+      omega
+    refine ⟨hwd, ?_⟩
+    have hd : ∀ c, cacheDead w' c = cacheDead w c := cacheDead_addFactory (fac := fac) h.1 rfl rfl rfl
+    have := RIc.appendCache (T' := tabOf w') h.2 (cacheOf p.cacheSK none a b) hf1.1 hf1.2.1 hf1.2.2
+      (fun c _ => hd c) (fun c => rfl) (by simp [tabOf, w'])
+    exact RIc.frame this rfl rfl rfl
+  | true =>
+    simp only [if_true, pure_run, bind_run, addCache, List.length_append, List.length_cons, List.length_nil, Nat.zero_add]
+    let fac : Factory := { pol := p, skCache := w.caches.length, sharedIk := some (w.caches.length + 1) }
+    let w1 : World := { w with caches := w.caches ++ [cacheOf p.cacheSK none a b] }
+    let w' : World := { w with caches := (w.caches ++ [cacheOf p.cacheSK none a b]) ++ [cacheOf true none c d], facs := w.facs ++ [fac] }
+    show QInv w'
+    have hwd : Wired w' := by
+      refine h.1.addFactory (w' := w') (fac := fac) rfl (by simp [w', fac]) (by simp [w']) ⟨Nat.le_refl _, by simp [w', fac]⟩
+        ?_ ⟨by simp [fac, hsh], hnb.1, hnb.2⟩ ?_
+      · intro c hc
+        simp only [fac, Option.some.injEq] at hc
+        subst hc
+        simp [w', fac]
+      · intro c h1 h2
+        simp [w'] at h2
+        by_cases e : c = w.caches.length
+        · left; exact e.symm
+        · right; show some (w.caches.length + 1) = some c; congr 1; omega
+    refine ⟨hwd, ?_⟩
+    have hd : ∀ c, cacheDead w' c = cacheDead w c := cacheDead_addFactory (fac := fac) h.1 rfl (by simp [w', fac]) rfl
+    let T1 : CTab := { dead := cacheDead w', mode := fun c => (w1.caches.getD c default).mode, n := w.caches.length + 1 }
+    have h1 : RIc T1 .none (hcount []) w1 := RIc.appendCache (T' := T1) h.2 (cacheOf p.cacheSK none a b) hf1.1 hf1.2.1 hf1.2.2
+      (fun c _ => hd c) (fun c => rfl) rfl
+    have h2 := RIc.appendCache (T' := tabOf w') h1 (cacheOf true none c d) hf2.1 hf2.2.1 hf2.2.2
+      (fun c _ => rfl) (fun c => rfl) (by simp [tabOf, w', T1])
+    exact RIc.frame h2 rfl rfl rfl
+
+theorem ses_lookup_append {l : List Session} {ss ss' : Session} {s : Nat} (h : (l ++ [ss])[s]? = some ss') :
+    (s < l.length ∧ l[s]? = some ss') ∨ (s = l.length ∧ ss' = ss) := by
+  rw [getElem?_append_single] at h
+  split at h
+  · exact Or.inl ⟨by assumption, h⟩
+  · split at h
+    · cases h; exact Or.inr ⟨by assumption, rfl⟩
+    · cases h
+
+theorem nonShared_facs_eq {w w' : World} (hf : w'.facs = w.facs) (ss : Session) : nonShared w' ss = nonShared w ss := by
+  unfold nonShared; rw [hf]
+
+theorem Wired.addSession {w w' : World} {ss : Session} {fac : Factory} (hw : Wired w) (hf : w'.facs = w.facs)
+    (hs : w'.sessions = w.sessions ++ [ss]) (hfac : w.facs[ss.fac]? = some fac)
+    (hcase : (∃ c, fac.sharedIk = some c ∧ ss.ikCache = c ∧ w'.caches.length = w.caches.length) ∨
+      (fac.sharedIk = none ∧ ss.ikCache = w.caches.length ∧ w'.caches.length = w.caches.length + 1)) : Wired w' := by
+  have hlen : w.caches.length ≤ w'.caches.length := by rcases hcase with ⟨c, _, _, e⟩ | ⟨_, _, e⟩ <;> omega
+  have hns := nonShared_facs_eq hf
+  have hnsnew : nonShared w ss = true → fac.sharedIk = none ∧ ss.ikCache = w.caches.length ∧ w'.caches.length = w.caches.length + 1 := by
+    intro hn
+    rw [nonShared_eq hfac] at hn
+    rcases hcase with ⟨c, e, _, _⟩ | h
+    · rw [e] at hn; cases hn
+    · exact h
+  have hold_lt : ∀ (s0 : Nat) (ss0 : Session), w.sessions[s0]? = some ss0 → nonShared w ss0 = true → ss0.ikCache < w.caches.length := by
+    intro s0 ss0 h0 hn
+    obtain ⟨fac0, hfac0, _, b⟩ := hw.sesOk s0 ss0 h0
+    rw [nonShared_eq hfac0] at hn
+    exact (b (by simpa using hn)).1
+  refine ⟨?_, ?_, ?_, ?_, ?_⟩
+  · intro f' fac' h'
+    rw [hf] at h'
+    have := hw.facOk f' fac' h'
+    exact ⟨by omega, fun c hc => ⟨by have := (this.2.1 c hc).1; omega, (this.2.1 c hc).2⟩, this.2.2⟩
+  · rw [hf]; exact hw.facDisj
+  · intro s0 ss0 h'
+    rw [hs] at h'
+    rw [hf]
+    rcases ses_lookup_append h' with ⟨_, h0⟩ | ⟨_, rfl⟩
+    · obtain ⟨fac0, hfac0, a, b⟩ := hw.sesOk s0 ss0 h0
+      exact ⟨fac0, hfac0, a, fun hn => ⟨by have := (b hn).1; omega, (b hn).2⟩⟩
+    · refine ⟨fac, hfac, ?_, ?_⟩
+      · intro c hc
+        rcases hcase with ⟨c', e, e2, _⟩ | ⟨e, _, _⟩
+        · rw [e] at hc; cases hc; exact e2
+        · rw [e] at hc; cases hc
+      · intro hn
+        rcases hcase with ⟨c', e, _, _⟩ | ⟨_, e2, e3⟩
+        · rw [e] at hn; cases hn
+        · refine ⟨by omega, ?_⟩
+          intro f2 fac2 h2 hc2
+          have := hw.fcaches_lt h2 hc2
+          omega
+  · intro s1 s2 a b h1 h2 n1 n2 e
+    rw [hs] at h1 h2
+    rw [hns] at n1 n2
+    rcases ses_lookup_append h1 with ⟨l1, ha⟩ | ⟨e1, rfl⟩ <;> rcases ses_lookup_append h2 with ⟨l2, hb⟩ | ⟨e2, rfl⟩
+    · exact hw.sesDisj s1 s2 a b ha hb n1 n2 e
+    · have := hold_lt _ _ ha n1; have := (hnsnew n2).2.1; omega
+    · have := hold_lt _ _ hb n2; have := (hnsnew n1).2.1; omega
+    · omega
+  · intro c hc
+    by_cases hlt : c < w.caches.length
+    · rcases hw.owned c hlt with ⟨f0, fac0, h1, h2⟩ | ⟨s0, ss0, h1, h2, h3⟩
+      · exact Or.inl ⟨f0, fac0, by rw [hf]; exact h1, h2⟩
+      · exact Or.inr ⟨s0, ss0, by rw [hs]; exact append_getElem?_of_some _ h1, by rw [hns]; exact h2, h3⟩
+    · rcases hcase with ⟨c', _, _, e⟩ | ⟨e1, e2, e3⟩
+      · omega
+      · refine Or.inr ⟨w.sessions.length, ss, by rw [hs]; simp, ?_, by omega⟩
+        rw [hns, nonShared_eq hfac, e1]; rfl
+
+theorem cacheDead_addSession {w w' : World} {ss : Session} (hf : w'.facs = w.facs)
+    (hs : w'.sessions = w.sessions ++ [ss]) (hcl : ss.closed = false) (c : Nat) : cacheDead w' c = cacheDead w c := by
+  have hns := nonShared_facs_eq hf
+  rw [Bool.eq_iff_iff]
+  simp only [cacheDead_iff]
+  constructor
+  · rintro (⟨f', fac', h1, h2, h3⟩ | ⟨s', ss', h1, h2, h3, h4⟩)
+    · exact Or.inl ⟨f', fac', by rw [← hf]; exact h1, h2, h3⟩
+    · rw [hs] at h1
+      rcases ses_lookup_append h1 with ⟨_, hb⟩ | ⟨_, rfl⟩
+      · exact Or.inr ⟨s', ss', hb, h2, by rw [← hns]; exact h3, h4⟩
+      · rw [hcl] at h2; cases h2
+  · rintro (⟨f', fac', h1, h2, h3⟩ | ⟨s', ss', h1, h2, h3, h4⟩)
+    · exact Or.inl ⟨f', fac', by rw [hf]; exact h1, h2, h3⟩
+    · exact Or.inr ⟨s', ss', by rw [hs]; exact append_getElem?_of_some _ h1, h2, by rw [hns]; exact h3, h4⟩
+
+theorem QInv.getSession {w : World} (h : QInv w) (f part a b : Nat) (fac : Factory) (hfac : w.facs[f]? = some fac) :
+    QInv (getSession f part a b w).2 := by
+  have hgf : w.facs.getD f default = fac := getD_eq_of_getElem? hfac
+  simp only [Env.getSession, bind_run, get_run, hgf]
+  have hfo := h.1.facOk f fac hfac
+  cases hsi : fac.sharedIk with
+  | some c0 =>
+    simp only [pure_run]
+    let ss : Session := { fac := f, part := part, ikCache := c0 }
+    let w' : World := { w with sessions := w.sessions ++ [ss] }
+    show QInv w'
+    refine ⟨h.1.addSession (w' := w') (ss := ss) (fac := fac) rfl rfl hfac (Or.inl ⟨c0, hsi, rfl, rfl⟩), ?_⟩
+    refine RI.retab (RIc.frame h.2 rfl rfl rfl) ?_
+    intro c _
+    exact (cacheDead_addSession (w := w) (w' := w') (ss := ss) rfl rfl rfl c).symm
+  | none =>
+    simp only [addCache, hfo.2.2.2.2]
+    have hfr := cacheOf_fresh fac.pol.cacheIK a b
+    let ss : Session := { fac := f, part := part, ikCache := w.caches.length }
+    let w' : World := { w with caches := w.caches ++ [cacheOf fac.pol.cacheIK none a b], sessions := w.sessions ++ [ss] }
+    show QInv w'
+    refine ⟨h.1.addSession (w' := w') (ss := ss) (fac := fac) rfl rfl hfac (Or.inr ⟨hsi, rfl, by simp [w']⟩), ?_⟩
+    have hd : ∀ c, cacheDead w' c = cacheDead w c := cacheDead_addSession (w := w) (w' := w') (ss := ss) rfl rfl rfl
+    have := RIc.appendCache (T' := tabOf w') h.2 (cacheOf fac.pol.cacheIK none a b) hfr.1 hfr.2.1 hfr.2.2
+      (fun c _ => hd c) (fun c => rfl) (by simp [tabOf, w'])
+    exact RIc.frame this rfl rfl rfl
+
+/-! ### well-formed histories -/
+
+/-- the restriction of the C09 proofs: only `never` / `simple` key caches (the SDK default). -/
+def NoBoundedOp : Op → Prop
+  | .newFactory p _ _ _ _ => p.skKind = none ∧ p.ikKind = none
+  | _ => True
+
+/-- an operation a caller can legitimately issue in world `w`: it names existing objects, uses
+only sessions that are open (neither the session nor its factory has been closed) and closes
+nothing twice. -/
+def opOk (w : World) : Op → Prop
+  | .getSession f _ _ _ => ∃ fac, w.facs[f]? = some fac
+  | .encrypt s _ _ => sessionOpen w s
+  | .decrypt s _ _ => sessionOpen w s
+  | .closeSession s => ∃ ss, w.sessions[s]? = some ss ∧ ss.closed = false
+  | .closeFactory f => ∃ fac, w.facs[f]? = some fac ∧ fac.closed = false
+  | _ => True
+
+/-- every operation of the history is legitimate in the world in which it runs. -/
+def validFrom (w : World) : List Op → Prop
+  | [] => True
+  | op :: rest => opOk w op ∧ validFrom (applyOp w op).2 rest
+
+def NoBounded (ops : List Op) : Prop := ∀ op, op ∈ ops → NoBoundedOp op
+
+theorem applyOp_snd_eq (w : World) (op : Op) : (applyOp w op).2 = match op with
+    | .newFactory p a b c d => (newFactory p a b c d w).2
+    | .getSession f part c d => (getSession f part c d w).2
+    | .encrypt s pay fl => (encrypt s pay fl true w).2
+    | .decrypt s d fl => (decrypt s d fl true w).2
+    | .closeSession s => ((do beginOp []; closeSession s : M Unit) w).2
+    | .closeFactory f => ((do beginOp []; closeFactory f : M Unit) w).2
+    | .advance d => (advance d w).2
+    | .revoke m => (revoke m w).2
+    | .corruptRow m dp => (corruptRow m dp w).2 := by
+  have wrap : ∀ {α : Type} (f : α → Out) (r : Except Err α × World),
+      (match r with | (.ok a, w') => (f a, w') | (.error e, w') => (Out.error e, w')).2 = r.2 := by
+    intro α f r; obtain ⟨r, w'⟩ := r; cases r <;> rfl
+  cases op <;> first | exact wrap _ _ | rfl
+
+theorem QInv.applyOp {w : World} (h : QInv w) (op : Op) (hok : opOk w op) (hnb : NoBoundedOp op) :
+    QInv (applyOp w op).2 := by
+  rw [applyOp_snd_eq]
+  cases op with
+  | newFactory p a b c d => exact h.newFactory p a b c d hnb
+  | getSession f part c d => obtain ⟨fac, hf⟩ := hok; exact h.getSession f part c d fac hf
+  | encrypt s pay fl => exact h.encrypt s pay fl hok
+  | decrypt s d fl => exact h.decrypt s d fl hok
+  | closeSession s => obtain ⟨ss, h1, h2⟩ := hok; exact h.closeSession s ss h1 h2
+  | closeFactory f => obtain ⟨fac, h1, h2⟩ := hok; exact h.closeFactory f fac h1 h2
+  | advance d => exact h.of_same rfl rfl rfl rfl rfl
+  | revoke m => exact h.of_same rfl rfl rfl rfl rfl
+  | corruptRow m dp => exact h.of_same rfl rfl rfl rfl rfl
+
+theorem QInv.init (t : Int) : QInv (World.init t) := by
+  refine ⟨⟨?_, ?_, ?_, ?_, ?_⟩, ?_⟩
+  · intro f fac h; simp [World.init] at h
+  · intro f f' fac fac' c h; simp [World.init] at h
+  · intro s ss h; simp [World.init] at h
+  · intro s s' ss ss' h; simp [World.init] at h
+  · intro c h; simp [World.init] at h
+  · refine ⟨rfl, fun s h => (by cases h), fun o h => (by cases h), ?_, ?_, ?_, ?_, ?_, ?_, ?_, rfl⟩
+    · intro o k h; simp [World.init] at h
+    · intro i s h; simp [World.init] at h
+    · intro o k h; simp [World.init] at h
+    · intro o h; simp [hcount] at h
+    · intro c kc h; simp [World.init] at h
+    · intro c; rfl
+    · intro c; simp [tabOf, World.init]; decide
+
+theorem QInv.runOps {w : World} (h : QInv w) (ops : List Op) (hv : validFrom w ops) (hnb : NoBounded ops) :
+    QInv (runOps w ops).2 := by
+  induction ops generalizing w with
+  | nil => exact h
+  | cons op rest ih =>
+    rw [runOps_snd_cons]
+    exact ih (h.applyOp op hv.1 (hnb op List.mem_cons_self)) hv.2 (fun o ho => hnb o (List.mem_cons_of_mem _ ho))
 
 end AsherahVerif.Env
